@@ -484,8 +484,11 @@ decodechar(const char *src, uint_least32_t *chr, bool *hexoct, const char *desc,
 			++s;
 			assert(isxdigit(*s));
 			c = 0;
-			do c = c * 16 + (*s > '9' ? 10 + tolower(*s) - 'a' : *s - '0');
-			while (isxdigit(*++s));
+			do {
+				if (c >> 28)
+					error(loc, "%s contains escape sequence out of range", desc);
+				c = c * 16 + (*s > '9' ? 10 + tolower(*s) - 'a' : *s - '0');
+			} while (isxdigit(*++s));
 			if (hexoct)
 				*hexoct = true;
 			break;
@@ -678,6 +681,7 @@ primaryexpr(struct scope *s)
 	char *src, *end;
 	uint_least32_t chr;
 	unsigned long long val;
+	bool hexoct;
 	int base;
 
 	switch (tok.kind) {
@@ -712,7 +716,10 @@ primaryexpr(struct scope *s)
 		}
 		assert(*src == '\'');
 		++src;
-		src += decodechar(src, &chr, NULL, "character constant", &tok.loc);
+		hexoct = false;
+		src += decodechar(src, &chr, &hexoct, "character constant", &tok.loc);
+		if (hexoct && chr >> (t ? t->size * 8 - 1 : 7) >> 1)
+			error(&tok.loc, "character constant contains escape sequence out of range");
 		val = chr;
 		if (!t) {
 			/* integer character constant: value of type char converted to int */
